@@ -306,6 +306,8 @@ impl PartitionStorage for FilePartitionStorage {
     }
 
     async fn delete(&self, partition: &Partition) -> Result<(), IggyError> {
+        #[cfg(feature = "verif")]
+        let _verif = crate::verif::fs_event_on_drop("partition_delete", &partition.partition_path);
         info!(
             "Deleting partition with ID: {} for stream with ID: {} and topic with ID: {}...",
             partition.partition_id, partition.stream_id, partition.topic_id,
